@@ -123,6 +123,23 @@ CHECKS["C15"] = dict(
          "iteration, the model is relational there.",
     technique="Lean 4 soundness and completeness proof + exhaustive small-grid differential run + brute-force oracle", design="§7 C15")
 
+CHECKS["C01"] = dict(
+    text="Machine-checked (Lean 4, any linearly ordered field): (die_sound) every die the constructor accepts is a tiling within the "
+         "code's own tolerances — all reported regions inside the die, pairwise overlap <= eps_A, |sum of areas - W*H| below the area "
+         "tolerance, input regions reported unchanged with their tags; (cands_complete) the candidate set is exactly the all-free index "
+         "rectangles; (cover_*) for EVERY admissible pick order of the greedy cover (relational model: independent of set-iteration "
+         "tie-breaks) picks are cell-disjoint, made of free cells, the loop terminates and no free cell is left; (die_complete) for a "
+         "valid description (regions inside, interior-disjoint, positive, boundary coordinates separated by more than the tolerance) "
+         "every accepted pick sequence makes the constructor return with an EXACT tiling — the full Hanan-grid argument; "
+         "(die_rejects_*) regions leaving the die or overlapping by more than eps_A are rejected. Tied to Die(text, netlist) on every run: "
+         "exact (dyadic) and float (decimal) streams, the implementation's ground-region order fed to the model as the pick trace, and "
+         "an exact-decimal validity oracle on the DOCUMENT (valid but rejected / invalid but accepted = violation).",
+    note="Exact-arithmetic theorems; IEEE rounding executed and searched, not proved ('whatever its coordinates' is decided by search on "
+         "decimal documents); sqrt a parameter; YAML text->tree and netlist->fixed rectangles taken from the implementation; rejection of "
+         "overlaps below eps_A through the area sum is searched, not proved; two repairs committed first (inside tolerance, area tolerance).",
+    technique="Lean 4 proof (relational greedy cover, Finset telescoping on the Hanan grid) + Rat/Float model correspondence + exact-decimal document oracle",
+    design="§7 C01")
+
 NOT_APPLICABLE = {}
 
 def main():
